@@ -21,8 +21,10 @@ pub enum Offs {
     Overlapping,
     /// the same bytes stored more than once at different offsets (a writer that does not deduplicate)
     Duplicates,
+    /// every tile's bytes lie strictly inside the preceding tile's bytes: the tile that starts last ends first
+    Nested,
 }
-pub const OFFS: [Offs; 5] = [Offs::Contiguous, Offs::BackRefs, Offs::Descending, Offs::Overlapping, Offs::Duplicates];
+pub const OFFS: [Offs; 6] = [Offs::Contiguous, Offs::BackRefs, Offs::Descending, Offs::Overlapping, Offs::Duplicates, Offs::Nested];
 
 pub const ORDERS: [[Sec; 3]; 6] = [
     [Sec::Meta, Sec::Leaves, Sec::Data],
@@ -169,6 +171,12 @@ fn tiles_of(s: &Spec) -> (Vec<SEntry>, Vec<u8>) {
                 data.extend(c);
             }
         }
+        Offs::Nested => {
+            data = (0..2 * n + 1).map(|j| b'a' + (j % 26) as u8).collect();
+            for k in 0..n {
+                offs.push((k as u64, (2 * (n - k) - 1) as u32));
+            }
+        }
         Offs::Overlapping => {
             data = (0..n + 4).map(|j| b'A' + (j % 26) as u8).collect();
             for k in 0..n {
@@ -309,6 +317,42 @@ pub fn product(thorough: bool) -> Vec<Spec> {
                     }
                 }
             }
+        }
+    }
+    out
+}
+
+/// Foreign archives used as the base of open -> edit -> write subjects (C02): name, bytes, the logical archive
+/// they hold. Free layouts, every offset pattern, nested directories; header variants 0 and 1.
+pub fn rewrite_bases() -> Vec<(String, Vec<u8>, crate::model::Logical)> {
+    use crate::model::{Logical, Settings};
+    let mut out = Vec::new();
+    let mut idx = 0usize;
+    for offs in OFFS {
+        for (shape, n, run) in [(Shape::RootOnly, 7usize, 1u32), (Shape::Leaves, 7, 2), (Shape::Depth3, 12, 1), (Shape::Mixed, 5, 3)] {
+            idx += 1;
+            let comp = (idx % 4) as u8 + 1;
+            let hv = (idx % 2) as u8;
+            let s = Spec { order: idx % 6, gap: [0usize, 1, 13][idx % 3], root_gap: idx % 5 == 0, shape, run, offs, n, meta: 2 + (idx % 2) as u8, comp, base: [0u64, 1, 5][idx % 3], hv, level_order: shape == Shape::Depth3 && idx % 2 == 0 };
+            let f = build(&s);
+            let internal = crate::common::comp_from_code(comp);
+            let mut l = Logical::new(internal);
+            for (id, (o, len)) in f.expected.iter() {
+                let a = *o as usize;
+                l.tiles.insert(*id, f.bytes[a..a + *len as usize].to_vec());
+            }
+            l.meta = expected_meta(&s);
+            let h = header_variant(hv);
+            l.settings = Settings {
+                tile_type: super::util::tt_of_code(h.tile_type).unwrap_or(pmtiles2::TileType::Unknown),
+                tile_compression: crate::common::comp_from_code(h.tile_compression),
+                internal,
+                min_zoom: h.min_zoom,
+                max_zoom: h.max_zoom,
+                center_zoom: h.center_zoom,
+                coords: [h.min_lon, h.min_lat, h.max_lon, h.max_lat, h.center_lon, h.center_lat].map(|k| f64::from(k) / 1e7),
+            };
+            out.push((format!("foreign {:?}/{:?} n={n} run={run} comp={comp}", shape, offs), f.bytes, l));
         }
     }
     out
